@@ -53,11 +53,19 @@ def jstep (j : J) (ws : List String) : J × String :=
   | ["get", kind, addr, token] =>
     (⟨(j.gets.filter (fun g => ¬ (g.1 = kind ∧ g.2.1 = addr ∧ g.2.2.1 = token))) ++ [(kind, addr, token, obs)]⟩, "pass")
   | ["owners", kind, token] =>
-    -- expected from the direct reads taken since the last mutation
-    let mine := j.gets.filter (fun g => g.1 = kind ∧ g.2.2.1 = token ∧ g.2.2.2 ≠ "0")
-    let exp := joinOr "," ((mine.map (fun g => (g.2.1, g.2.2.2))).foldl (fun acc p =>
-      (acc.filter (·.1 ≠ p.1)) ++ [p]) [] |>.map (fun p => s!"{p.1}={p.2}") |>.foldl (fun acc x => insertSorted x acc) [])
-    (j, if obs = exp then "pass" else s!"violation index_disagrees owners {kind} {token}: listed {obs}, direct reads say {exp}")
+    -- compare with the direct reads taken since the last mutation (addresses without a read are
+    -- not judged)
+    let reads := j.gets.filter (fun g => g.1 = kind ∧ g.2.2.1 = token)
+    let listed := if obs = "-" then [] else (obs.splitOn ",").filterMap (fun x => match x.splitOn "=" with
+      | [a, v] => some (a, v) | _ => none)
+    let bad1 := listed.find? (fun p => reads.any (fun g => g.2.1 = p.1 ∧ g.2.2.2 ≠ p.2))
+    let bad2 := reads.find? (fun g => g.2.2.2 ≠ "0" ∧ ¬ listed.any (fun p => p.1 = g.2.1))
+    let dup := listed.find? (fun p => (listed.filter (·.1 = p.1)).length > 1)
+    match bad1, bad2, dup with
+    | some p, _, _ => (j, s!"violation index_disagrees owners {kind} {token} lists {p.1}={p.2} but the direct read differs")
+    | _, some g, _ => (j, s!"violation index_disagrees owners {kind} {token} misses {g.2.1} whose direct read is {g.2.2.2}")
+    | _, _, some p => (j, s!"violation index_disagrees owners {kind} {token} lists {p.1} twice")
+    | none, none, none => (j, "pass")
   | _ => (⟨[]⟩, "pass")     -- any mutation invalidates the direct reads taken so far
 
 def judge : Machine := ⟨J, ⟨[]⟩, jstep⟩
